@@ -80,7 +80,7 @@ CHECKS = {
         design_ref="DESIGN.md 6/C15", note=TRUST),
     "C16": dict(
         technique="runtime monitoring: memory-observing monitors - slot photographs around drop_in_place, liveness probe (in-place inversion of every sighting + behaviour comparison), transformed-copy needles, freed-memory residue seen by the driver's own allocator (also on the shipping build: guard off, release), plus a drop-ledger hook",
-        text="Exploration over suites/modes/roles and directed degenerate-looking secrets: shared secret, base nonce and exporter secret must be sighted in the object's own storage before the drop and wiped after; every live copy (one whose inversion changes the context's behaviour), raw or transformed, must be wiped; a context's heap block may hold nothing live when it is freed - checked on the build a user ships, where nothing inside the crate reads the wiped bytes; every setup must drop the temporary AEAD key and the shared secret with no nonzero residue; drops performed by the unwinder (object owned by a panicking frame) are judged the same way, on the alloc and std builds.",
+        text="Exploration over suites/modes/roles and directed degenerate-looking secrets: shared secret, base nonce and exporter secret must be sighted in the object's own storage before the drop and wiped after; every live copy (one whose inversion changes the context's behaviour), raw or transformed, must be wiped; a context's heap block may hold nothing live when it is freed - checked on the build a user ships, where nothing inside the crate reads the wiped bytes; every setup must drop the temporary AEAD key and the shared secret with no nonzero residue; drops performed by the unwinder (object owned by a panicking frame) are judged the same way, on the alloc and std builds; after ordinary drops every writable mapping of the process except the thread stacks is searched for the secrets (copies parked in statics, thread-locals or leaked blocks).",
         design_ref="DESIGN.md 6/C16", note=TRUST + " Only the object's own storage is inspected; stale copies in dead bytes carried by moves are counted, not judged."),
     "C17": dict(
         technique="runtime monitoring over configurations: crate tests, corpus replay of the driver vs the all-features build, API presence probes, examples and bench, guard on/off comparison, per feature subset",
